@@ -30,6 +30,7 @@ const (
 	Truncated = "truncated" // 200, body cut in the middle of the JSON document, connection closed
 	Exec500   = "exec500"   // 500, JSON errorType=execution
 	Unavail   = "json503un" // 503, JSON errorType=unavailable (a real Prometheus whose TSDB is not ready)
+	Dropped   = "dropped"   // the client is known to have gone away: logged as aborted, nothing is written
 	CutJSON   = "cutjson"   // 200, HTTP-complete, but the JSON document ends at a token boundary inside "data"
 )
 
@@ -190,6 +191,10 @@ func (s *Server) handle(w http.ResponseWriter, r *http.Request) {
 			finish("aborted")
 			return
 		}
+	}
+	if act.Fault == Dropped {
+		finish("aborted")
+		return
 	}
 	if act.Fault == Timeout {
 		t := time.NewTimer(s.MaxHold)
